@@ -61,7 +61,9 @@ func (e *c31Env) block(t *testing.T, h uint64, ts int64, v int, txl []int, name 
 	for i, x := range txl {
 		txs[i] = e.txs[x]
 	}
-	sb, err := chain.NewStatelessBlock(ids.ID{byte(v)}, ts, h, txs, ids.Empty, nil)
+	// non-zero state root: an all-zero block (height 0, timestamp 0, no txs) encodes to zero bytes and
+	// is reloaded as ExecutedBlock{Block: nil}; a real genesis block carries the genesis state root
+	sb, err := chain.NewStatelessBlock(ids.ID{byte(v)}, ts, h, txs, ids.ID{0xaa}, nil)
 	if err != nil {
 		t.Fatal(err)
 	}
